@@ -416,6 +416,9 @@ type MineOpts struct {
 	Miner int
 	// Timestamp overrides the block time (default: genesis time + height).
 	Timestamp uint32
+	// CoinbaseOf: the block carries a byte-identical copy of that block's coinbase (same nonce attribute,
+	// same lock time), i.e. a transaction hash that is already on the chain if that block is.
+	CoinbaseOf *types.Block
 }
 
 // Mine assembles and solves a block on the explicit parent. It does NOT
@@ -433,8 +436,19 @@ func (n *Node) Mine(parent *types.Block, txs []interfaces.Transaction, o ...Mine
 	n.nonce++
 	nb := make([]byte, 8)
 	binary.BigEndian.PutUint64(nb, n.nonce)
-	cb, err := n.BuildTx(&TxSpec{Kind: "cb", Nonce: hex.EncodeToString(nb),
-		Outs: []OutSpec{{Addr: 0, Value: 0, Pay: "-"}, {Addr: opt.Miner, Value: 0, Pay: "-"}}}, height)
+	cbSpec := &TxSpec{Kind: "cb", Nonce: hex.EncodeToString(nb),
+		Outs: []OutSpec{{Addr: 0, Value: 0, Pay: "-"}, {Addr: opt.Miner, Value: 0, Pay: "-"}}}
+	if opt.CoinbaseOf != nil {
+		old := opt.CoinbaseOf.Transactions[0]
+		for _, a := range old.Attributes() {
+			if a.Usage == ctypes.Nonce {
+				cbSpec.Nonce = hex.EncodeToString(a.Data)
+			}
+		}
+		cbSpec.PDatas = []string{fmt.Sprintf("%08x", old.LockTime())}
+		cbSpec.Outs[1].Addr = n.AddrNo(old.Outputs()[1].ProgramHash)
+	}
+	cb, err := n.BuildTx(cbSpec, height)
 	if err != nil {
 		return nil, err
 	}
